@@ -2,6 +2,7 @@
 import re
 import mathprop, trioracle, vlib
 RUN_TARGETS = ['Run/GeomOps.vo']
+WITNESS = ['Props/Witness.vo']     # non-vacuity examples for the conditional theorems (built with the property)
 TRUSTED = ['hand model coq/Geom/Tri.v tied to triangulate.rs by exact equality of the index lists (only + - * / and comparisons: the float reading is bit-exact)',
            'exact rational oracle props/trioracle.py on implementation output (exploration: completion of the ear search is explored, not proved)']
 ASSUMPTIONS = ['stdlib real-number axioms', 'polygons have fewer than 2^15 vertices (i16/u16 casts in the Rust)']
